@@ -327,6 +327,15 @@ theorem bp8_de_morgan_dual3 (a b c : V3) :
   have e2 : ∀ x : V3, bp8v_not1 (.ofV3 x) = P3.ofV3 (specNot x) := fun x => by rw [← bp8_not_spec]; rfl
   rw [e1, e2 a, e2 b, e2 c, bp8_not_spec, bp8_and3_spec, de_morgan_or3]
 
+/-- the dual form for four operands (audit 2, C12 low item): NOT of OR4 = AND4 of the NOTs, for the real bit-parallel code -/
+theorem bp8_de_morgan_dual4 (a b c d : V3) :
+    (bp8v_not1 (bp8v_or4 (.ofV3 a) (.ofV3 b) (.ofV3 c) (.ofV3 d))).toV3 =
+      (bp8v_and4 (bp8v_not1 (.ofV3 a)) (bp8v_not1 (.ofV3 b)) (bp8v_not1 (.ofV3 c)) (bp8v_not1 (.ofV3 d))).toV3 := by
+  have e1 : bp8v_or4 (.ofV3 a) (.ofV3 b) (.ofV3 c) (.ofV3 d) = P3.ofV3 (specOr [a, b, c, d]) := by
+    rw [← bp8_or4_spec]; rfl
+  have e2 : ∀ x : V3, bp8v_not1 (.ofV3 x) = P3.ofV3 (specNot x) := fun x => by rw [← bp8_not_spec]; rfl
+  rw [e1, e2 a, e2 b, e2 c, e2 d, bp8_not_spec, bp8_and4_spec, de_morgan_or4]
+
 /-! ## lane-wise: every lane count `w`, every lane `k < w` -/
 
 theorem bp8v_not_lane (w k : Nat) (hk : k < w) (a : P3 (BitVec w)) :
